@@ -4,9 +4,11 @@ mod containers;
 mod covrun;
 mod ctrrun;
 mod paths;
+mod readrun;
 mod facts;
 mod files;
 mod gen;
+mod librun;
 mod minrun;
 mod mmaprun;
 mod sched;
@@ -58,6 +60,10 @@ fn main() {
         ["trace", "minout", ..] => minrun::free(arg(&a, 2), arg(&a, 3), &a[4], arg(&a, 5)),
         ["replay", "minout", ..] => minrun::replay(&a[2], arg(&a, 3), &a[4], arg(&a, 5), arg(&a, 6), a[7] == "m2s"),
         ["decode", "minout", ..] => minrun::decode(&a[2], &a[3], a[4] == "m2s", arg(&a, 5), arg(&a, 6)),
+        ["replay", "reader", ..] => readrun::replay(&a[2], &a[3], arg(&a, 4), arg(&a, 5)),
+        ["trace", "reader", ..] => readrun::free(arg(&a, 2), arg(&a, 3), &a[4], arg(&a, 5)),
+        ["lib", ..] => librun::run(&a[1], &a[2], &a[3], a.get(4)),
+        ["ctrlib", ..] => ctrrun::ctrlib(&a[1], &a[2], arg(&a, 3), arg(&a, 4), arg(&a, 5), a[6] == "1", a[7] == "1"),
         ["replay", "counter", ..] => ctrrun::replay(&a[2], arg(&a, 3), arg(&a, 4), &a[5], arg(&a, 6), arg(&a, 7)),
         ["table", "revcomp", ..] => tables::revcomp(arg(&a, 2)),
         ["table", "posmap", ..] => tables::posmap(arg(&a, 2)),
